@@ -764,3 +764,190 @@ Definition launch_names_gen : list string :=
 '''
     write_if_changed(os.path.join(GEN, "LaunchNames_gen.v"), out)
     return "gen/LaunchNames_gen.v"
+
+
+# ---- the change classes of hta/trace_diff.py -> coq/gen/DiffRules_gen.v ----
+def gen_diff_rules() -> str:
+    """Reads TraceDiff.compare_traces (diff_counts / diff_duration = test minus control; the sign lambda of counts_change_categories) and the
+    dictionary TraceDiff.ops_diff returns: five entries, each  df.loc[<a> & <b>].index.tolist()  with <a>, <b> of the form
+    df[col_control | col_test | col_diff].eq|gt|lt(<int>)."""
+    path = "hta/trace_diff.py"
+    tree = ast.parse(open(os.path.join(fw.REPO, path)).read())
+    cls = next((n for n in tree.body if isinstance(n, ast.ClassDef) and n.name == "TraceDiff"), None)
+    meth = {n.name: n for n in (cls.body if cls else []) if isinstance(n, ast.FunctionDef)}
+    if "compare_traces" not in meth or "ops_diff" not in meth:
+        raise Stop("TraceDiff.compare_traces / ops_diff not found")
+    src_cmp = ast.unparse(meth["compare_traces"])
+    for need in ("comp['diff_counts'] = comp[f'{test_label}_counts'] - comp[f'{control_label}_counts']",
+                 "comp['diff_duration'] = comp[f'{test_label}_total_duration'] - comp[f'{control_label}_total_duration']",
+                 "comp['counts_change_categories'] = comp['diff_counts'].apply(lambda c: '+' if c > 0 else '-' if c < 0 else '=')"):
+        if need not in src_cmp:
+            raise Stop(f"compare_traces: statement not found: {need}")
+    od = meth["ops_diff"]
+    cols = {}
+    ret = None
+    for st in od.body:
+        if isinstance(st, ast.Assign) and isinstance(st.targets[0], ast.Name) and st.targets[0].id in ("col_control", "col_test", "col_diff"):
+            cols[st.targets[0].id] = ast.unparse(st.value)
+        if isinstance(st, ast.Return):
+            ret = st.value
+    if cols != {"col_control": "f'{control_trace.label}_counts'", "col_test": "f'{test_trace.label}_counts'", "col_diff": "'diff_counts'"}:
+        raise Stop(f"ops_diff: column names {cols}")
+    if not isinstance(ret, ast.Dict) or [k.value for k in ret.keys] != ["added", "deleted", "increased", "decreased", "unchanged"]:
+        raise Stop("ops_diff: does not return the dictionary added / deleted / increased / decreased / unchanged")
+    var = {"col_control": "c", "col_test": "t", "col_diff": "(t - c)"}
+
+    def atom(e) -> str:
+        if not (isinstance(e, ast.Call) and isinstance(e.func, ast.Attribute) and e.func.attr in ("eq", "gt", "lt", "ge", "le") and len(e.args) == 1
+                and isinstance(e.args[0], ast.Constant) and isinstance(e.args[0].value, int)
+                and isinstance(e.func.value, ast.Subscript) and ast.unparse(e.func.value.value) == "df" and isinstance(e.func.value.slice, ast.Name)
+                and e.func.value.slice.id in var):
+            raise Stop(f"ops_diff: mask term {ast.unparse(e)}")
+        x, k = var[e.func.value.slice.id], fw.z(e.args[0].value)
+        return {"eq": f"({x} =? {k})", "gt": f"({k} <? {x})", "lt": f"({x} <? {k})", "ge": f"({k} <=? {x})", "le": f"({x} <=? {k})"}[e.func.attr]
+
+    def mask(v) -> str:
+        u = ast.unparse(v)
+        if not (isinstance(v, ast.Call) and u.endswith(".index.tolist()") and isinstance(v.func, ast.Attribute) and isinstance(v.func.value, ast.Attribute)
+                and isinstance(v.func.value.value, ast.Subscript) and ast.unparse(v.func.value.value.value) == "df.loc"):
+            raise Stop(f"ops_diff: entry {u[:60]} is not df.loc[<mask>].index.tolist()")
+        m = v.func.value.value.slice
+        if not (isinstance(m, ast.BinOp) and isinstance(m.op, ast.BitAnd)):
+            raise Stop("ops_diff: mask is not a conjunction of two terms")
+        return f"{atom(m.left)} && {atom(m.right)}"
+    text = f'''(* GENERATED by harness/translate.py from hta/trace_diff.py (TraceDiff.compare_traces, TraceDiff.ops_diff) -- do not edit.
+   c, t = the counts of a name in the control and the test selection; diff_counts = t - c (checked in compare_traces);
+   the five masks in the order added, deleted, increased, decreased, unchanged. *)
+From HTA.lib Require Import Base.
+Open Scope Z_scope.
+
+Definition masks_gen (c t : Z) : list bool :=
+  [ {"; ".join(mask(v) for v in ret.values)} ].
+(* counts_change_categories: '+' if diff > 0 else '-' if diff < 0 else '=' *)
+Definition sign_gen (d : Z) : Z := if 0 <? d then 1 else if d <? 0 then -1 else 0.
+'''
+    write_if_changed(os.path.join(GEN, "DiffRules_gen.v"), text)
+    return "gen/DiffRules_gen.v"
+
+
+# ---- row predicates of hta/common/trace_filter.py -> coq/gen/FilterRules_gen.v ----
+class _Mask:
+    """pandas boolean-mask expressions over df[...] columns -> a Gallina boolean over an event e"""
+    COL = {"ts": "ts e", "dur": "dur e", "stream": "stream e", "correlation": "corr e", "iteration": "iter e"}
+
+    def __init__(self, params: Dict[str, str], id_names: Dict[str, str]):
+        self.params, self.id_names = params, id_names
+
+    def num(self, e) -> str:
+        if isinstance(e, ast.Constant) and isinstance(e.value, int):
+            return fw.z(e.value)
+        if isinstance(e, ast.UnaryOp) and isinstance(e.op, ast.USub) and isinstance(e.operand, ast.Constant):
+            return fw.z(-e.operand.value)
+        if isinstance(e, ast.Attribute) and isinstance(e.value, ast.Name) and e.value.id == "self" and e.attr in self.params:
+            return self.params[e.attr]
+        if isinstance(e, ast.Subscript) and ast.unparse(e.value) == "df" and isinstance(e.slice, ast.Constant) and e.slice.value in self.COL:
+            return f"({self.COL[e.slice.value]})"
+        if isinstance(e, ast.BinOp) and isinstance(e.op, ast.Add):
+            return f"({self.num(e.left)} + {self.num(e.right)})"
+        raise Stop(f"filter mask: numeric term {ast.unparse(e)}")
+
+    def cmp(self, op: str, a: str, b: str) -> str:
+        return {"ge": f"({b} <=? {a})", "le": f"({a} <=? {b})", "gt": f"({b} <? {a})", "lt": f"({a} <? {b})", "eq": f"({a} =? {b})"}[op]
+
+    def boolean(self, e) -> str:
+        if isinstance(e, ast.BinOp) and isinstance(e.op, (ast.BitAnd, ast.BitOr)):
+            return f"({self.boolean(e.left)} {'&&' if isinstance(e.op, ast.BitAnd) else '||'} {self.boolean(e.right)})"
+        if isinstance(e, ast.UnaryOp) and isinstance(e.op, ast.Invert):
+            return f"(negb {self.boolean(e.operand)})"
+        if isinstance(e, ast.Compare) and len(e.ops) == 1:
+            op = {ast.GtE: "ge", ast.LtE: "le", ast.Gt: "gt", ast.Lt: "lt", ast.Eq: "eq"}.get(type(e.ops[0]))
+            if op:
+                return self.cmp(op, self.num(e.left), self.num(e.comparators[0]))
+        if isinstance(e, ast.Call) and isinstance(e.func, ast.Attribute) and len(e.args) == 1:
+            if e.func.attr in ("ge", "le", "gt", "lt", "eq"):
+                return self.cmp(e.func.attr, self.num(e.func.value), self.num(e.args[0]))
+            if e.func.attr == "isin" and ast.unparse(e.func.value) == "df['name']" and isinstance(e.args[0], ast.List) \
+                    and all(isinstance(x, ast.Name) and x.id in self.id_names for x in e.args[0].elts):
+                return "(str_in (name e) " + fw.sl([self.id_names[x.id] for x in e.args[0].elts]) + ")"
+        raise Stop(f"filter mask: {ast.unparse(e)[:80]}")
+
+
+def gen_filter_rules() -> str:
+    path = "hta/common/trace_filter.py"
+    tree = ast.parse(open(os.path.join(fw.REPO, path)).read())
+    classes = {n.name: n for n in tree.body if isinstance(n, ast.ClassDef)}
+    funcs = {n.name: n for n in tree.body if isinstance(n, ast.FunctionDef)}
+
+    def call_of(cls):
+        if cls not in classes:
+            raise Stop(f"trace_filter.py: class {cls} not found")
+        m = next((n for n in classes[cls].body if isinstance(n, ast.FunctionDef) and n.name == "__call__"), None)
+        if m is None:
+            raise Stop(f"{cls}.__call__ not found")
+        return m
+
+    def loc_mask(ret):
+        if not (isinstance(ret, ast.Return) and isinstance(ret.value, ast.Subscript) and ast.unparse(ret.value.value) == "df.loc"):
+            raise Stop(f"expected `return df.loc[<mask>]`, found {ast.unparse(ret)[:70]}")
+        return ret.value.slice
+
+    # TimeRangeFilter: last statement returns df.loc[mask]
+    tr = call_of("TimeRangeFilter")
+    time_mask = _Mask({"time_start": "time_start", "time_end": "time_end"}, {}).boolean(loc_mask(tr.body[-1]))
+    # the helper with the sync names
+    h = funcs.get("_filter_gpu_kernels_with_cuda_sync")
+    if h is None or [a.arg for a in h.args.args] != ["df", "symbol_table"]:
+        raise Stop("_filter_gpu_kernels_with_cuda_sync(df, symbol_table) not found")
+    ids = {}
+    hret = None
+    for st in h.body:
+        if isinstance(st, ast.Expr) and isinstance(st.value, ast.Constant):
+            continue
+        if isinstance(st, ast.Assign) and isinstance(st.targets[0], ast.Name):
+            mm = re.fullmatch(r"symbol_table\.get_sym_id_map\(\)\.get\('([^']+)', -1\)", ast.unparse(st.value))
+            if not mm:
+                raise Stop(f"_filter_gpu_kernels_with_cuda_sync: {ast.unparse(st)[:70]}")
+            ids[st.targets[0].id] = mm.group(1)
+        elif isinstance(st, ast.Return):
+            hret = st.value
+        else:
+            raise Stop(f"_filter_gpu_kernels_with_cuda_sync: statement {type(st).__name__}")
+    dev_mask = _Mask({}, ids).boolean(hret)
+
+    def two_way(cls):
+        """if symbol_table is None: return df.loc[A]  ... return df.loc[B or ~helper(df, symbol_table)]"""
+        m = call_of(cls)
+        none_mask = tab_mask = None
+        for st in m.body:
+            if isinstance(st, ast.If) and ast.unparse(st.test) == "symbol_table is None":
+                none_mask = loc_mask(st.body[-1])
+        tab_mask = loc_mask(m.body[-1])
+        if none_mask is None:
+            raise Stop(f"{cls}: no `if symbol_table is None` branch")
+        u = ast.unparse(tab_mask)
+        if u == "_filter_gpu_kernels_with_cuda_sync(df, symbol_table)":
+            neg = False
+        elif u == "~_filter_gpu_kernels_with_cuda_sync(df, symbol_table)":
+            neg = True
+        else:
+            raise Stop(f"{cls}: with a table the mask is {u[:70]}")
+        return _Mask({}, {}).boolean(none_mask), neg
+    gpu_none, gpu_neg = two_way("GPUKernelFilter")
+    cpu_none, cpu_neg = two_way("CPUOperatorFilter")
+    text = f'''(* GENERATED by harness/translate.py from hta/common/trace_filter.py (TimeRangeFilter, _filter_gpu_kernels_with_cuda_sync, GPUKernelFilter,
+   CPUOperatorFilter) -- do not edit.  e = the row; corr = the correlation column. *)
+From HTA.lib Require Import Base.
+Open Scope Z_scope.
+
+Definition time_pred_gen (time_start time_end : Z) (e : ev) : bool := {time_mask}.
+(* _filter_gpu_kernels_with_cuda_sync: device rows when the symbol table is known *)
+Definition dev_pred_table_gen (e : ev) : bool := {dev_mask}.
+(* without a symbol table *)
+Definition gpu_pred_notable_gen (e : ev) : bool := {gpu_none}.
+Definition cpu_pred_notable_gen (e : ev) : bool := {cpu_none}.
+(* with a table: is the helper's mask negated? *)
+Definition gpu_table_negated_gen : bool := {fw.b(gpu_neg)}.
+Definition cpu_table_negated_gen : bool := {fw.b(cpu_neg)}.
+'''
+    write_if_changed(os.path.join(GEN, "FilterRules_gen.v"), text)
+    return "gen/FilterRules_gen.v"
